@@ -254,6 +254,12 @@ def gen_cases(ctx):
                 else:
                     oth = [n for n in p["elig_hint"] if n != tgt]
                     add(p, ["-type=" + ",".join(rng.sample([tgt] + oth[:1], len(oth[:1]) + 1))], ["named-two"] + tags)
+        # ---- MANY outputs in one run (11 eligible types in one file): every written file is listed, however many there are ----
+        p = g.package(cmd, n_elig=11, nfiles=2, colocate=True)
+        add(p, [sel_flag(rng, rng.sample(p["elig_hint"][:11], 11))], ["named-many"])
+        p = g.package(cmd, n_elig=11, nfiles=2, colocate=True)
+        home = [f for f, t in declared_names(p) if t["name"] == p["elig_hint"][0]][0]
+        add(p, ["-file=" + home, "-sep"], ["file-sep", "many-outputs"])
         # ---- two eligible types whose names differ only in letter case (finding F_case_collision where their per-type files coincide) ----
         for sh, selk in (("case-twin", "both"), ("case-twin", "file-sep"), ("case-twin", "star"), ("case-twin", "one"), ("case-twin-otherfile", "both")):
             p = g.package(cmd, n_elig=2, nfiles=2, extra=(sh,))
